@@ -1001,8 +1001,14 @@ def probe_replay(w=None):
 # ------------------------------------------------------------------------------------------ tasks
 
 LEMMA_FUNCS["C30.lemma.branch_update"] = branch_update_lemma
-for _m in ("_define_ref", "store", "declare_parameter", "load"):
-    LEMMA_FUNCS[f"C30.lemma.symbols_inv.{_m}"] = symbols_inv(_m)
+def _all_symbols_inv(task, tier, seed):
+    rs = []
+    for m in ("_define_ref", "store", "declare_parameter", "load"):
+        rs += symbols_inv(m)(task, tier, seed)
+    return rs
+
+
+LEMMA_FUNCS["C30.lemma.symbols_inv"] = _all_symbols_inv
 
 
 def _keyed(t, k):
@@ -1018,7 +1024,7 @@ TASKS = (
     [fuc_task(q) for q in FUC]
     + [FnTask("C30", "C30.extra", extras, "path", replay_seeds),
        FnTask("C30", "C30.lemma.branch_update", hard_timeout("C30.lemma.branch_update"), "vc", replay_seeds)]
-    + [FnTask("C30", f"C30.lemma.symbols_inv.{m}", hard_timeout(f"C30.lemma.symbols_inv.{m}"), "vc", replay_seeds) for m in ("_define_ref", "store", "declare_parameter", "load")]
+    + [FnTask("C30", "C30.lemma.symbols_inv", hard_timeout("C30.lemma.symbols_inv", seconds=120), "vc", replay_seeds)]
     + [FnTask("C30", "C30.lemma.tables", symbols_tables, "table", replay_seeds),
        FnTask("C30", "C30.consttext.tables", consttext_tables, "table", consttext_replay),
        FnTask("C30", "C30.consttext.native", consttext_native, "bounded", consttext_replay),
